@@ -445,6 +445,9 @@ func nativeReplay(pkgDir string, vecs []Vector) ([]NativeOut, error) {
 	cmd.Dir = repoDir()
 	cmd.Env = append(os.Environ(), "VP_REPLAY="+vecFile, "GOFLAGS=-mod=mod", "GOPROXY=off", "GOSUMDB=off", "GOTOOLCHAIN=local")
 	out, runErr := cmd.CombinedOutput()
+	if os.Getenv("VP_DEBUG_NATIVE") != "" {
+		fmt.Fprintln(os.Stderr, string(out))
+	}
 	var res []NativeOut
 	for _, l := range strings.Split(string(out), "\n") {
 		if strings.HasPrefix(l, "VP-RESULT ") {
@@ -613,7 +616,11 @@ func cmdRun(args []string) int {
 	}
 	var metas []jobMeta
 	baseCaps := CapSpec{Seconds: 600}
+	only := os.Getenv("VERIF_ONLY") // development aid: "harness" or "pkg:harness" substring filter
 	for ui, u := range spec.Units {
+		if only != "" && !strings.Contains(u.Pkg+":"+u.Harness, only) {
+			continue
+		}
 		cases := expandTier(u.Quick)
 		caps := mergeCaps(baseCaps, u.Quick.Caps)
 		if tier == "thorough" {
@@ -823,9 +830,15 @@ func cmdRun(args []string) int {
 
 	// 5. evidence
 	ev := buildEvidence(prop, tier, seed, &spec, jobs, results, tracesOK, tracesTried, len(violations), inconc, knownLines, time.Since(t0).Seconds(), lives2notes(lives))
-	os.MkdirAll(filepath.Join(vd, "evidence"), 0o755)
+	evDir := filepath.Join(vd, "evidence")
+	if d := os.Getenv("VERIF_EVIDENCE_DIR"); d != "" {
+		// seed evaluation against a scratch copy of the repository (VERIF_REPO)
+		// must not overwrite the evidence of the real tree
+		evDir = d
+	}
+	os.MkdirAll(evDir, 0o755)
 	eb, _ := json.MarshalIndent(ev, "", " ")
-	if err := os.WriteFile(filepath.Join(vd, "evidence", prop+".json"), append(eb, '\n'), 0o644); err != nil {
+	if err := os.WriteFile(filepath.Join(evDir, prop+".json"), append(eb, '\n'), 0o644); err != nil {
 		fmt.Fprintln(os.Stderr, "evidence:", err)
 	}
 	tot := ev["coverage"].(map[string]interface{})
